@@ -44,7 +44,7 @@ PLAN = {
     "C13": [TERM, CONNECT], "C14": [TERM, CONNECT], "C23": [CONNECT, DATA_BPUB, SLEEP], "C24": [CONNECT, DATA_PUB, DATA_CTRL],
     "C34": [SLEEP, CONNECT],
 }
-QUICK_SAMPLE = 1200     # schedules per MC configuration executed in the quick tier
+QUICK_SAMPLE = 2500     # schedules per MC configuration executed in the quick tier
 
 
 def tla_set(xs):
